@@ -454,3 +454,24 @@ def constructors_establish_grid_invariants(ncells: int, i: int, j: int, z0: floa
     assert not cart.isAxialOnly
     assert not cart._isThroughCenter()
     assert eq(cart.getCoordinates((0, 0, 0))[0], pitch / 2.0) and eq(cart.getCoordinates((0, 0, 0))[1], pitch)
+
+
+@lemma(gen={"p1": (0.1, 30.0), "p2": (0.1, 30.0), "p3": (0.1, 30.0), "i": (-9, 9), "j": (-9, 9)})
+def hex_pitch_follows_every_change_of_the_grid(p1: float, p2: float, p3: float, cornersUp: bool, i: int, j: int):
+    """the pitch a hex grid REPORTS is the pitch of its current unit steps: read it, change the pitch, read it again; back
+    up, change, restore; the six neighbours of any cell lie one (current) pitch away; a grid rebuilt from reduce() agrees"""
+    assume(p1 > 0 and p2 > 0 and p3 > 0)
+    g = HexGrid.fromPitch(p1, numRings=3, cornersUp=cornersUp)
+    assert eq(g.pitch, p1)  # the first read (a cached value must not outlive the next change)
+    g.changePitch(p2)
+    assert eq(g.pitch, p2), "after changePitch the grid reports the new pitch"
+    x0, y0, _z = g.getCoordinates((i, j, 0))
+    for ni, nj, _nk in g.getNeighboringCellIndices(i, j, 0):
+        x, y, _z = g.getCoordinates((ni, nj, 0))
+        assert eq((x - x0) ** 2 + (y - y0) ** 2, g.pitch ** 2), "neighbours lie one reported pitch away"
+    g.backUp()
+    g.changePitch(p3)
+    assert eq(g.pitch, p3)
+    g.restoreBackup()
+    assert eq(g.pitch, p2), "and the restored pitch after a restored back-up"
+    assert eq(HexGrid(*g.reduce()).pitch, g.pitch)
